@@ -1395,9 +1395,12 @@ int ov_raw_seek(OggVorbis_File *vf,ogg_int64_t pos){
         ogg_stream_reset_serialno(&vf->os,serialno);
         ogg_stream_reset_serialno(&work_os,serialno);
         vf->ready_state=STREAMSET;
-        firstflag=(pagepos<=vf->dataoffsets[link]);
+        /* with another logical stream multiplexed in, the link's first
+           audio page need not sit at the data offset itself */
+        firstflag=(pagepos<=vf->dataoffsets[link] || pos<=vf->dataoffsets[link]);
       }else if(vf->current_serialno==ogg_page_serialno(&og) &&
-               pagepos<=vf->dataoffsets[vf->current_link]){
+               (pagepos<=vf->dataoffsets[vf->current_link] ||
+                pos<=vf->dataoffsets[vf->current_link])){
         /* same test when the link did not have to be re-identified */
         firstflag=1;
       }
